@@ -182,6 +182,23 @@ class SortFootnotes(Transform):
         self.document.autofootnotes.sort(key=_sort_key)
 
 
+class _DropLeadingTransition(Transform):
+    """Remove the footnote transition, if later transforms left nothing in front of it
+    but the document title: a document may not begin with a transition.
+    """
+
+    default_priority = Transitions.default_priority - 1
+
+    def apply(self, **kwargs: t.Any) -> None:
+        transition = self.startnode.details["transition"]
+        parent = transition.parent
+        if parent is not None and all(
+            isinstance(c, nodes.title | nodes.subtitle | nodes.system_message)
+            for c in parent.children[: parent.index(transition)]
+        ):
+            parent.remove(transition)
+
+
 class CollectFootnotes(Transform):
     """Transform to move footnotes to the end of the document, and sort by label."""
 
@@ -222,6 +239,11 @@ class CollectFootnotes(Transform):
             transition = nodes.transition(classes=["footnotes"])
             transition.source = self.document.source
             self.document += transition
+            # what precedes it now can be gone when docutils checks the transitions
+            # (e.g. the ``contents`` of a document without sections, ``sectnum``)
+            self.document.note_pending(
+                nodes.pending(_DropLeadingTransition, {"transition": transition})
+            )
 
         def _sort_key(footnote: tuple[str, nodes.footnote]) -> tuple[int, int, str]:
             label, _ = footnote
